@@ -389,4 +389,54 @@ theorem tw_step {cfg : Config} {s : St} {pid tid : Nat} {r : TRun} (h : TW cfg s
             simp only [trecOf]; rw [if_neg]; intro ⟨e1, e2, _⟩; exact hne ⟨e1, e2⟩
           rw [this]
 
+/-! ### whole histories -/
+
+theorem tw_fold {cfg : Config} (hr : cfg.reuse = false) (pid tid : Nat) (rs : List Rec) :
+    ∀ (s : St) (r : TRun), TW cfg s pid tid r → (∀ x ∈ rs, isCut x = false) →
+      TW cfg (rs.foldl step s) pid tid ((trecs cfg pid tid rs).foldl (threadStep (St.init cfg) pid tid) r) := by
+  induction rs with
+  | nil => intro s r h _; exact h
+  | cons x rs ih =>
+    intro s r h hc
+    have h1 := tw_step h hr x (hc x List.mem_cons_self)
+    have h2 := ih (step s x) _ h1 (fun y hy => hc y (List.mem_cons_of_mem _ hy))
+    rw [List.foldl_cons]
+    unfold trecs
+    rw [List.filterMap_cons]
+    cases hx : trecOf cfg pid tid x with
+    | none => rw [hx] at h2; exact h2
+    | some y => rw [hx] at h2; rw [List.foldl_cons]; exact h2
+
+theorem tw_init (cfg : Config) (pid tid h : Nat) : TW cfg (St.init cfg) pid tid { th := { h } } :=
+  ⟨⟨_, Sim.init cfg⟩, rfl, rfl, fun _ => rfl⟩
+
+theorem isCut_of_hasCut {rs : List Rec} (h : CsSpec.hasCut rs = false) : ∀ x ∈ rs, isCut x = false := by
+  intro x hx
+  cases hc : isCut x with
+  | false => rfl
+  | true =>
+    have : CsSpec.hasCut rs = true := by
+      unfold CsSpec.hasCut
+      rw [List.any_eq_true]
+      refine ⟨x, hx, ?_⟩
+      cases x with
+      | exit => rfl
+      | comm pid tid nm ex t => cases ex <;> simp_all [isCut]
+      | sample => simp [isCut] at hc
+      | fork => simp [isCut] at hc
+      | mmap2 => simp [isCut] at hc
+      | switchIn => simp [isCut] at hc
+      | switchOut => simp [isCut] at hc
+      | sched => simp [isCut] at hc
+    rw [h] at this; cases this
+
+/-- **The binding invariant over a history** (default options, no EXIT / EXEC): the thread object bound to
+(pid, tid) after `run cfg rs` carries the triple of `threadRun` over the thread's own records, and the samples in
+the buffer of `pid` tagged with `tid` are — in time, cpu delta, weight and kind — the ones `threadRun` emitted;
+if the run did not panic, neither did the thread run. -/
+theorem thread_of_run (cfg : Config) (rs : List Rec) (hr : cfg.reuse = false) (hcut : CsSpec.hasCut rs = false)
+    (pid tid : Nat) :
+    TW cfg (run cfg rs) pid tid (threadRun (St.init cfg) pid tid 0 (trecs cfg pid tid rs)) :=
+  tw_fold hr pid tid rs (St.init cfg) _ (tw_init cfg pid tid 0) (isCut_of_hasCut hcut)
+
 end Conv
